@@ -31,8 +31,15 @@ CAsOnly  == Conf(FALSE, TRUE, Tol0, 1, TgtNone, Tol1, 2, NoMask, NoMask)
 CMix1    == Conf(TRUE, TRUE, Tol0, 1, TgtScalar1, Tol1, 1, NoMask, NoMask)
 CMix2    == Conf(TRUE, TRUE, Tol0, 1, TgtScalar1, Tol1, 2, NoMask, NoMask)
 
+(* per-parameter targets 0,1,0,.. with tolerance 1: on values {0,1} every parameter collapses at once, each at ITS target *)
+CListAll == Conf(TRUE, FALSE, Tol1, 1, TgtList, Tol0, 1, NoMask, NoMask)
+
+(* ties only, the pair (0,1) masked: with 3 parameters the pairs (1,2) and (0,2) are tied by successive collapses *)
+CChain == Conf(FALSE, TRUE, Tol0, 1, TgtNone, Tol0, 1, NoMask, Mask({}, {<<0, 1>>}))
+ConfsChain == {CChain}
+
 ConfsQuick == {CBoth1, CMasked}
-ConfsAll == {CBoth1, CMasked, CList, CAtOnly, CAsOnly, CMix1, CMix2}
+ConfsAll == {CBoth1, CMasked, CList, CAtOnly, CAsOnly, CMix1, CMix2, CListAll}
 ConfsOne == {CBoth1}
-ConfsScript == {CBoth1, CMasked, CList, CMix1, CMix2, CAtOnly}
+ConfsScript == {CBoth1, CMasked, CList, CMix1, CMix2, CAtOnly, CListAll}
 =============================================================================
